@@ -444,7 +444,7 @@ def thorough_extras(prop, sel, repo, known):
                "C02": [("findings/f13_replay.rs", "verif_replay_f13b")],
                "C16": [("notes/design-phase-replays.rs", "f3_welcome_for_held_group_id_disturbs_active_group")],
                "C11": [("findings/f16_replay.rs", "verif_replay_f16")],
-               "C06": [("findings/f10_replay.rs", "verif_replay_f10"), ("findings/f12_replay.rs", "verif_replay_f12")],
+               "C06": [("findings/f10_replay.rs", "verif_replay_f10"), ("findings/f12_replay.rs", "verif_replay_f12"), ("findings/f25_replay.rs", "verif_replay_f25")],
                "C08": [("findings/f12_replay.rs", "verif_replay_f12")],
                "C05": [("notes/design-phase-replays.rs", "f5_admin_add_sweeps_foreign_remove_proposal"), ("findings/f5b_replay.rs", "verif_replay_f5b"), ("findings/f5cd_replay.rs", "verif_replay_f5cd"), ("findings/f5e_replay.rs", "verif_replay_f5e")]}
     if kf and prop in replays:
